@@ -129,9 +129,34 @@ def pbVarint (d : Bytes) : Option (Nat × Bytes) :=
   | some (v, r) => some (v % 2 ^ 64, r)
   | none => none
 
+/-- `protohelpers.Skip`: skip one complete field (nested groups included) starting at its tag -/
+def pbSkipAux : Nat → Nat → Bytes → Option Bytes
+  | 0, _, _ => none
+  | _ + 1, _, [] => none                               -- `for iNdEx < l` ends: ErrUnexpectedEOF
+  | fuel + 1, depth, d =>
+    match pbVarint d with
+    | none => none
+    | some (wire, r) =>
+      let wt := wire % 8
+      let next (depth' : Nat) (r' : Bytes) : Option Bytes :=
+        if depth' = 0 then some r' else pbSkipAux fuel depth' r'
+      if wt = 0 then
+        match pbVarintAux 0 r with
+        | some (_, r') => next depth r'
+        | none => none
+      else if wt = 1 then (if r.length < 8 then none else next depth (r.drop 8))
+      else if wt = 2 then
+        match pbVarint r with
+        | some (len, r') => if len ≥ 2 ^ 63 ∨ r'.length < len then none else next depth (r'.drop len)
+        | none => none
+      else if wt = 3 then pbSkipAux fuel (depth + 1) r
+      else if wt = 4 then (if depth = 0 then none else next (depth - 1) r)
+      else if wt = 5 then (if r.length < 4 then none else next depth (r.drop 4))
+      else none
+
 /-- `LogEntry.UnmarshalVT`: fields 1 (version, int32), 2 (data), 5 (checksum, uint64) in any order, last
-one wins. Simplification: unknown fields / wrong wire types are treated as a parse error (the real
-parser skips unknown fields); the difference is covered by the differential check. -/
+one wins; a known field with the wrong wire type, wire type 4 and field numbers ≤ 0 (as int32) are
+errors; unknown fields are skipped. -/
 def parseLogEntryAux : Nat → LogEntry → Bytes → Option LogEntry
   | _, e, [] => some e
   | 0, _, _ :: _ => none
@@ -139,30 +164,39 @@ def parseLogEntryAux : Nat → LogEntry → Bytes → Option LogEntry
     match pbVarint d with
     | none => none
     | some (wire, r) =>
-      let field := wire / 8
+      let field := (wire / 8) % 2 ^ 32          -- int32(wire >> 3)
       let wt := wire % 8
-      if field = 1 ∧ wt = 0 then
+      if wt = 4 then none
+      else if field = 0 ∨ field ≥ 2 ^ 31 then none
+      else if field = 1 then
+        if wt ≠ 0 then none else
         match pbVarint r with
         | some (v, r') => parseLogEntryAux fuel { e with version := v % 2 ^ 32 } r'
         | none => none
-      else if field = 2 ∧ wt = 2 then
+      else if field = 2 then
+        if wt ≠ 2 then none else
         match pbVarint r with
         | some (len, r') =>
-          if r'.length < len then none
+          if len ≥ 2 ^ 63 ∨ r'.length < len then none
           else parseLogEntryAux fuel { e with data := r'.take len } (r'.drop len)
         | none => none
-      else if field = 5 ∧ wt = 0 then
+      else if field = 5 then
+        if wt ≠ 0 then none else
         match pbVarint r with
         | some (v, r') => parseLogEntryAux fuel { e with checksum := v } r'
         | none => none
-      else none
+      else
+        match pbSkipAux (d.length + 1) 0 d with
+        | some r' => parseLogEntryAux fuel e r'
+        | none => none
 
 def parseLogEntry (p : Bytes) : Option LogEntry := parseLogEntryAux p.length {} p
 
-/-- codec whose mutation parser is a table from entry data to the mutation the clean run logged -/
+/-- codec whose mutation parser is a table from entry data to the mutation the clean run logged;
+empty data is the zero `Mutation` (unknown type: a no-op) -/
 def tableCodec (table : List (Bytes × Mutation)) : Codec where
   parseEntry := parseLogEntry
   crc := crc64
-  parseMut := fun d => (table.find? (fun q => q.1 = d)).map (·.2)
+  parseMut := fun d => if d = [] then some {} else (table.find? (fun q => q.1 = d)).map (·.2)
 
 end Specter.Aof
